@@ -50,9 +50,6 @@ ENTRIES = [
       "            " + NOTIFY + "\n\n            if not data.endswith(b'\\n'):",
       "            " + NOTIFY + "\n            " + NOTIFY + "\n\n            if not data.endswith(b'\\n'):"), 'C04-D1'),
     B('trailer-notify-deleted', (S, "        self._data_event_dispatcher.notify_read(trailer_data)\n\n", ""), 'C04-D1'),
-    B('notify-after-decompress', (S,
-      "            " + NOTIFY + "\n\n            content_data = self._decompress_data(data)\n",
-      "            content_data = self._decompress_data(data)\n            " + NOTIFY + "\n"), 'C04-D1', all_=True),
     B('chunk-notify-content', (S,
       "                " + NOTIFY + "\n\n                if not content:",
       "                self._data_event_dispatcher.notify_read(content)\n\n                if not content:"), 'C04-D1'),
@@ -224,3 +221,12 @@ ENTRIES = [
     N('equivalent-cut-spelling', (S, "data = data[:bytes_left]", "data = data[:len(data) + bytes_left]")),
     {'id': 'C04/benign-planned-fix-0012', 'prop': 'C04', 'kind': 'benign', 'patch': P12},
 ]
+
+# Reporting after decoding (but still once, unmodified, on every normal path) keeps the property: a failed decode aborts the
+# exchange and no response record is written at all.  Kept as a benign twin (it used to be listed as a break).
+for _e in [B('notify-after-decompress', (S,
+      "            " + NOTIFY + "\n\n            content_data = self._decompress_data(data)\n",
+      "            content_data = self._decompress_data(data)\n            " + NOTIFY + "\n"), None, all_=True)]:
+    _e['kind'] = 'benign'
+    _e['id'] = _e['id'].replace('C04/', 'C04/benign-')
+    ENTRIES.append(_e)
